@@ -101,6 +101,21 @@ var bridgeFuncs = map[string]any{
 	"bytes.Join":                          bytes.Join,
 	"bytes.Replace":                       bytes.Replace,
 	"bytes.ReplaceAll":                    bytes.ReplaceAll,
+	"bytes.Cut":                           bytes.Cut,
+	"bytes.CutPrefix":                     bytes.CutPrefix,
+	"bytes.CutSuffix":                     bytes.CutSuffix,
+	"bytes.TrimPrefix":                    bytes.TrimPrefix,
+	"bytes.TrimSuffix":                    bytes.TrimSuffix,
+	"bytes.Fields":                        bytes.Fields,
+	"bytes.SplitN":                        bytes.SplitN,
+	"bytes.LastIndexByte":                 bytes.LastIndexByte,
+	"bytes.ContainsAny":                   bytes.ContainsAny,
+	"bytes.ContainsRune":                  bytes.ContainsRune,
+	"bytes.IndexRune":                     bytes.IndexRune,
+	"bytes.Repeat":                        bytes.Repeat,
+	"bytes.Compare":                       bytes.Compare,
+	"strings.CutPrefix":                   strings.CutPrefix,
+	"strings.CutSuffix":                   strings.CutSuffix,
 	"strings.LastIndexByte":               strings.LastIndexByte,
 	"strings.IndexFunc":                   nil,
 	"strings.Compare":                     strings.Compare,
